@@ -74,9 +74,11 @@ def _root(e: ast.AST) -> ast.AST:
 
 
 class _FunctionFreshness:
-    def __init__(self, fn: ast.FunctionDef, params: List[str]):
+    def __init__(self, fn: ast.FunctionDef, params: List[str], method_returns=None):
         self.fn = fn
         self.params = set(params)
+        # name of a plain METHOD of the same class -> freshness class of what it returns (join over its returns)
+        self.method_returns = method_returns or (lambda name: None)
         self.env: Dict[str, str] = {}
         self.elem_env: Dict[str, str] = {}
         self.literal_roots: Set[str] = set()
@@ -167,6 +169,10 @@ class _FunctionFreshness:
                 return "Owned" if c == "Owned" else ("Elem" if c in ("Fresh", "Elem") else c)
             if f in ("self._assemble_matrix", "self._assemble_vector", "self._assemble_marginal", "json.loads", "copy.deepcopy", "copy.copy"):
                 return "Fresh"
+            if isinstance(e.func, ast.Attribute) and isinstance(e.func.value, ast.Name) and e.func.value.id in ("self", "cls"):
+                c = self.method_returns(e.func.attr)
+                if c is not None:
+                    return c
             return "Shared"
         if isinstance(e, ast.Name):
             if e.id in self.env:
@@ -292,8 +298,29 @@ def _param_freshness(repo: Repo, m: Member, param: str) -> Optional[str]:
 
 def inventory(repo: Repo) -> List[WriteSite]:
     sites: List[WriteSite] = []
+    _ret_cache: Dict[Tuple[int, str], Optional[str]] = {}
+
+    def returns_of(ci, name: str, depth: int = 0) -> Optional[str]:
+        """Freshness class of the value a plain method `name` of class `ci` returns (None: not a plain method of the class,
+        or no return value).  A helper that hands back the response's own list is as Owned as the expression it stands for."""
+        key = (id(ci), name)
+        if key in _ret_cache:
+            return _ret_cache[key]
+        _ret_cache[key] = None
+        callee = repo.lookup(ci, name)
+        if callee is None or callee.kind not in ("method", "staticmethod", "classmethod") or depth > 2 or not isinstance(callee.node, ast.FunctionDef):
+            return None
+        sub = _FunctionFreshness(callee.node, callee.params, lambda n, ci=ci, depth=depth: returns_of(ci, n, depth + 1))
+        out = None
+        for r in ast.walk(callee.node):
+            if isinstance(r, ast.Return) and r.value is not None:
+                c = sub.classify(r.value)
+                out = c if out is None else sub._join(out, c)
+        _ret_cache[key] = out
+        return out
+
     for m in repo.all_members():
-        fr = _FunctionFreshness(m.node, m.params)
+        fr = _FunctionFreshness(m.node, m.params, lambda n, ci=m.cls: returns_of(ci, n))
         in_init = m.name == "__init__"
 
         def add(kind: str, target: ast.AST, node: ast.AST):
